@@ -168,6 +168,41 @@ theorem C04_graph (g : Store) (catalog : Dict) (r : Nat)
     (List.filter_sublist).nodup ((List.reverse_perm new).nodup_iff.mpr hn)
   rw [hnd.count, if_pos hmem]
 
+/-- **Inheritance on graphs.** Whatever the graph (shared nodes, cycles), every yielded page that is
+an indirect object was reached along a chain of Kids entries from the root `r`, and each of its
+inheritable attributes is its own or that of the nearest node on that chain defining it (the
+chain on which the page is first reached). -/
+theorem C04_graph_inherit (g : Store) (catalog : Dict) (r fuel : Nat)
+    (hroot : dget catalog "Pages" = some (.atom (.ref r)))
+    (hcat : ∀ k ∈ INHERITABLE_ATTRS, dget catalog k = none) :
+    ∀ rp ∈ (treeWalk g fuel catalog).pages, ∀ p, rp.id = some p →
+      ∃ path, path.head? = some p ∧ path.getLast? = some r ∧ IsChain g path ∧
+        ∀ k ∈ INHERITABLE_ATTRS, dget rp.attrs k = inherited (path.map (nodeDict g)) k := by
+  intro rp hrp p hp
+  unfold treeWalk at hrp
+  rw [hroot] at hrp
+  simp only at hrp
+  have h := visit_attrs g fuel (.atom (.ref r)) catalog [] []
+    (fun k hk => by rw [hcat k hk]; simp [inherited]) (fun id _ => by simp [IsChain]) rp hrp p hp
+  obtain ⟨id, path, hk, h1, h2, h3, h4⟩ := h
+  have : id = r := by simpa [kidId] using hk.symm
+  subst this
+  exact ⟨path, h1, h2, by simpa using h3, by simpa using h4⟩
+
+/-- A Page (6) shared by two Pages nodes with different Rotate: it is yielded once, with the Rotate
+of the node through which it is reached first (3), not of the later one (4). -/
+example :
+    let g : Store :=
+      [(2, .node [("Type", .atom (.name "Pages")), ("Kids", .arr [.atom (.ref 3), .atom (.ref 4)])]),
+       (3, .node [("Type", .atom (.name "Pages")), ("Kids", .arr [.atom (.ref 6)]), ("Rotate", .atom (.int 90))]),
+       (4, .node [("Type", .atom (.name "Pages")), ("Kids", .arr [.atom (.ref 6), .atom (.ref 7)]),
+            ("Rotate", .atom (.int 180))]),
+       (6, .node [("Type", .atom (.name "Page"))]),
+       (7, .node [("Type", .atom (.name "Page"))])]
+    (createPages g [2, 3, 4, 6, 7] 6 [("Pages", .atom (.ref 2))]).1.map (fun p => (p.id, p.rotate))
+      = [(some 6, 90), (some 7, 180)] := by
+  decide
+
 /-- A two-node cycle with a repeated kid, a self loop, a direct Page dictionary and a direct Pages
 dictionary in Kids: the walk ends, pages 3 and 5 come once, the direct Page is yielded without
 object number, the direct Pages node is ignored. -/
